@@ -230,7 +230,7 @@ def mc_famimpl(run, tier, seed, fams):
             run.states += r["distinct"]
             run.transitions += r["generated"]
             info[f] = {"stride": stride, "distinct_states": r["distinct"]}
-    run.extra["mc_famimpl"] = {"families": info, "invariant": "Inv_FamRefines (Obl_Legal, Obl_Make, Obl_Undo)",
+    run.extra["mc_famimpl"] = {"families": info, "invariant": "Inv_FamRefines (Obl_Legal, Obl_SemiValidate, Obl_Make, Obl_Undo)",
                                "wall_s": round(time.time() - t0, 1)}
     log(f"[mc] MC_FamImpl {info} in {time.time() - t0:.1f}s")
 
@@ -335,7 +335,7 @@ def plan_queries(prop, tier, seed):
     corruption_test(run, prop, out, corrupt_q)
     families(run, prop, tier, seed, binary, ident_q(prop), classify_q(prop))
     if prop in ("C01", "C06", "C07"):
-        mc_famimpl(run, tier, seed, ["EP", "EPEDGE", "ONLYEP", "PIN", "CASTLE", "CHK"])
+        mc_famimpl(run, tier, seed, ["EP", "EPEDGE", "ONLYEP", "PIN", "CASTLE", "CHK", "BATTERY", "EDGEPAWN", "PROMO"])
     if len(run.nontrivial) < 2:
         run.tool_error("vacuous coverage: fewer than 2 non-trivial positions")
     return run.finish()
